@@ -42,7 +42,8 @@ def run(ctx):
     n = 40 if not thorough else 600
     for ver in VERS:
         shapes = [(rs, p) for rs in (1, 2, 16) for p in (2 * rs, 3 * rs, 5 * rs)] + [(4096, 8192), (16384, 32768)]     # exact multiples of the record size
-        shapes += [(4096, 1000), (1000, 1000), (100, 513), (513, 513), (512, 1023), (4096, 5000)]                      # final records longer than a reader's first buffer
+        shapes += [(4096, 1000), (1000, 1000), (100, 513), (513, 513), (512, 1023), (4096, 5000)]
+        shapes += [(16, 0), (1, 0), (4096, 0), (16, 1), (16, 15), (16, 17)]           # the empty payload of each draft, and the smallest ones (never left to the draw)                      # final records longer than a reader's first buffer
         for i in range(n):
             if i < len(shapes):
                 rs, plen = shapes[i]
